@@ -117,13 +117,14 @@ let model_step (before : parsed_dump) (after : parsed_dump) (call : Stdlib.Strin
           if xm.x_subtype <> xa.x_subtype && kind = "subtype" then problems := ("subtype of gp " ^ dec_of_n g) :: !problems;
           if xm.x_ud <> xa.x_ud then problems := ("userdata of gp " ^ dec_of_n g) :: !problems;
           if xm.x_dm <> xa.x_dm then problems := ("dont_merge of gp " ^ dec_of_n g) :: !problems) exa;
-        (* total_memory of the returned Group *)
-        (match r with
-         | RObj (Some g, _) when kind = "group" ->
-             (match tm_of t' g, find_by_gp after.pd g with
-              | Some a, Some o -> if a <> o.o_tm then problems := ("total_memory of gp " ^ dec_of_n g) :: !problems
-              | _ -> ())
-         | _ -> ());
+        (* total_memory of every object (propagate_total_memory after a Group insertion) *)
+        if kind = "group" then
+          Stdlib.List.iter (fun (o : dobj) ->
+            match o.o_gp with
+            | Some g -> (match tm_of t' g with
+                         | Some a -> if a <> o.o_tm then problems := ("total_memory of gp " ^ dec_of_n g) :: !problems
+                         | None -> ())
+            | None -> ()) after.pd.t_objs;
         if !problems = [] then "model ok " ^ rs else "model DIFF " ^ Stdlib.String.concat " ; " (Stdlib.List.rev !problems)
       end
 
